@@ -12,6 +12,7 @@
 -/
 import PdsVerif.Lemmas.StftStream
 import PdsVerif.Lemmas.Walk
+import PdsVerif.Lemmas.Dft
 import Mathlib.Algebra.BigOperators.Group.Finset.Basic
 import Mathlib.Algebra.Order.Floor.Ring
 import Mathlib.Algebra.Order.Field.Basic
@@ -262,6 +263,49 @@ theorem default_len_bin {K : Type} [Field K] [LinearOrder K] [IsStrictOrderedRin
   · have := Int.floor_le (lo / (rate / D))
     have h3 := (le_div_iff₀ hδ).mp this
     push_cast; linarith
+
+/-! ## the spectrum itself: Hermitian symmetry, so the walk's reads are full-spectrum bins -/
+
+open PdsVerif.Dft in
+/-- what `_compute_frame` reads for one hit: entry `idx` of `rfft`'s half spectrum, conjugated on the mirrored
+pass (`half_spect[...].conj()`) -/
+noncomputable def readHit (D : Nat) (x : Nat → ℂ) (h : Walk.Hit) : ℂ :=
+  if h.conj then (starRingEnd ℂ) (dft D x (h.idx : ℤ)) else dft D x (h.idx : ℤ)
+
+open PdsVerif.Dft in
+/-- **Hermitian symmetry closes the gap** between the half spectrum the code holds and the full spectrum the
+property speaks about: for a real (windowed, zero-padded) frame the value read for a hit IS full-spectrum
+bin `binOf D h` of the `D`-point DFT (`Dft.dft_mirror`: `X[D − k] = conj X[k]`). -/
+theorem read_eq_full_bin (D : Nat) (hD : 0 < D) (x : Nat → ℂ) (hx : ∀ n, (starRingEnd ℂ) (x n) = x n)
+    (h : Walk.Hit) (hidx : h.idx < Walk.halfLen D) :
+    readHit D x h = dft D x ((binOf D h : Nat) : ℤ) := by
+  unfold readHit binOf
+  split
+  · rw [dft_mirror_nat D (Nat.pos_iff_ne_zero.mp hD) x hx h.idx (by simp only [Walk.halfLen] at hidx; omega)]
+  · rfl
+
+open PdsVerif.Dft in
+/-- **coefficient = sum over the FULL DFT spectrum of `nonlin(DFT(window × frame) × H_i)`**, the property's
+formula, with the DFT being NumPy's documented transform rather than an abstract family of values:
+what the loop accumulates from the half spectrum (with conjugated reads on the mirrored pass) equals the sum
+over all `D` bins of `nonlin (X[b] · H[b])`, `H` the response rebuilt from the truncated response.
+`nonlin` is `|z|²` (use_power) or `|z|`; only `nonlin 0 = 0` is used. -/
+theorem coefficient_eq_full_dft_sum {M : Type} [AddCommMonoid M] (D start len : Nat) (hD : 0 < D)
+    (hlen : len ≤ D) (x : Nat → ℂ) (hx : ∀ n, (starRingEnd ℂ) (x n) = x n) (tap : Nat → ℂ)
+    (nonlin : ℂ → M) (h0 : nonlin 0 = 0) :
+    ((Walk.run D start len).map fun h => nonlin (readHit D x h * tap h.tap)).sum
+      = ∑ b ∈ Finset.range D, nonlin (dft D x (b : ℤ) * rebuilt D start len tap b) := by
+  have hrun : ((Walk.run D start len).map fun h => nonlin (readHit D x h * tap h.tap))
+      = (Walk.run D start len).map fun h => nonlin (dft D x ((binOf D h : Nat) : ℤ) * tap h.tap) := by
+    apply List.map_congr_left
+    intro h hm
+    rw [read_eq_full_bin D hD x hx h (walk_idx_in_range D start len hD h hm).1]
+  rw [hrun]
+  exact walk_sum_eq_full_spectrum D start len hD hlen tap (fun b t => nonlin (dft D x (b : ℤ) * t))
+    (fun b => by simp [h0])
+
+/-- the two non-linearities of the code satisfy the side condition -/
+example : Complex.normSq 0 = 0 ∧ ‖(0 : ℂ)‖ = 0 := by simp
 
 /-! non-vacuity -/
 example : Walk.run 8 6 5 = Walk.spec 8 6 5 ∧ (Walk.run 8 6 5).length = 5 := by decide
